@@ -834,6 +834,24 @@ pub fn execute(scn: &Scn, property: &str) -> RunOutcome {
             }
         }
     }
+    if property == "C20" && out.violation.is_none() && scn.repartition_seed % 3 == 1 {
+        out.count("probe.extreme_constant_under_overshooting_easing_run");
+        match catch(|| crate::shapes::extreme_constant_probe(&scn.ops, scn.repartition_seed >> 3)) {
+            Ok(None) => {}
+            Ok(Some(d)) => {
+                out.violation = Some(viol("C20", "non-finite-value", scn.ops.len(), d, "extreme constant".into()));
+            }
+            Err(p) => {
+                out.violation = Some(viol(
+                    "C20",
+                    &format!("panic@{}:{}", p.file, p.line),
+                    scn.ops.len(),
+                    format!("extreme-constant probe panicked: {}", p.describe()),
+                    "panic extreme constant".into(),
+                ));
+            }
+        }
+    }
     if property == "C20" {
         // duration() of every timeline must be finite unless a component is infinite
         for (i, st) in spec.states.iter().enumerate() {
